@@ -294,8 +294,20 @@ func (o *appStorageObs) boost(s *Sim, g *Gen) *Candidate {
 		app := labs[g.n(len(labs))]
 		existing := g.boxes(app)
 		name := labBoxNames[g.n(len(labBoxNames))]
-		if len(existing) > 0 && g.n(3) != 0 {
-			name = existing[g.n(len(existing))]
+		switch kind {
+		case "bput", "bdel", "bresize", "bsplice", "breplace":
+			if len(existing) == 0 {
+				kind = "bcreate"
+			} else if g.n(6) != 0 {
+				name = existing[g.n(len(existing))]
+			}
+		case "bcreate", "bcdc", "bputdel":
+			if len(existing) > 0 && g.n(6) == 0 {
+				name = existing[g.n(len(existing))] // re-creation attempt
+			}
+		}
+		if st.Accts[app.Address()].MicroAlgos.Raw < 1_500_000 && g.n(3) != 0 {
+			kind = "fund"
 		}
 		cur := st.Kv[boxKeyPrefix(app)+name]
 		key := labKeys[g.n(len(labKeys))]
